@@ -43,6 +43,8 @@ class InterruptableThread(threading.Thread):
         threading.Thread.__init__(self)
         self.func, self.args, self.kwargs = func, args, kwargs
         self.daemon = True
+        #: Set when the caller gave up on this thread because it ran out of time
+        self.abandoned = False
         self.result = None
         self.exc_info = (None, None, None)
 
@@ -105,6 +107,7 @@ def timeout(duration, func, *args, **kwargs):
     target_thread.join(duration)
 
     if target_thread.is_alive():
+        target_thread.abandoned = True
         target_thread.terminate()
         _verif_sync('after_terminate')
         timeout_exception = TimeoutError('Your code took too long to run '
